@@ -612,7 +612,11 @@ void libxmp_mixer_softmixer(struct context_data *ctx)
 
 #ifdef LIBXMP_PAULA_SIMULATOR
 	if (p->flags & XMP_FLAGS_A500) {
-		if (IS_AMIGA_MOD()) {
+		/* The Paula states are allocated by libxmp_virt_on: a player
+		 * mode chosen during playback can make this an Amiga module
+		 * without them. */
+		if (IS_AMIGA_MOD() && p->virt.maxvoc > 0 &&
+		    p->virt.voice_array[0].paula != NULL) {
 			if (p->filter) {
 				mixerset = a500led_mixers;
 			} else {
